@@ -273,11 +273,12 @@ def register_keeps_fact(classes):
 
 
 class _Rec:
-    """recording stand-in for a connection, for the on_open functions"""
+    """recording stand-in for a connection, for the on_open / on_close functions"""
 
     def __init__(self, default):
         self.default_desired_privilege_level = default
         self.calls = []
+        self.cmds = []            # what was passed to send_command (the API promises the default desired level for these)
         self.channel = self
 
     def acquire_priv(self, desired_priv):
@@ -285,17 +286,122 @@ class _Rec:
 
     def send_command(self, command):
         self.calls.append(("line", command))
+        self.cmds.append(command)
 
     def send_input(self, channel_input):
         self.calls.append(("line", channel_input))
 
+    def write(self, channel_input):
+        self.calls.append(("write", channel_input))
 
-def platform_facts(plat):
+    def send_return(self):
+        self.calls.append(("return", None))
+
+
+def _record(fn, default):
+    """run an on_open / on_close function against the recording stub; None if it does anything the stub does not know"""
+    rec = _Rec(default)
+    try:
+        fn(rec)
+    except Exception:  # noqa: an unknown shape, reported by the caller
+        return None
+    return rec
+
+
+class _ARec(_Rec):
+    async def acquire_priv(self, desired_priv):
+        _Rec.acquire_priv(self, desired_priv)
+
+    async def send_command(self, command):
+        _Rec.send_command(self, command)
+
+    async def send_input(self, channel_input):
+        _Rec.send_input(self, channel_input)
+
+
+def _record_async(fn, default):
+    import asyncio
+    rec = _ARec(default)
+    loop = asyncio.new_event_loop()
+    try:
+        loop.run_until_complete(fn(rec))
+    except Exception:  # noqa
+        return None
+    finally:
+        loop.close()
+    return rec
+
+
+def fallback_facts(plat, err):
+    """the translator refused this platform (GenError anywhere in platform_facts): the tie is reported broken, and the
+    failing-input search still needs the names the device-log oracle works with.  Read with as few assumptions as
+    possible: level names = keys of a constructed driver's privilege_levels (+ the session family), lines = the escalate /
+    deescalate strings of these levels + the vendor table's lines + what on_open / on_close send to a recording stub,
+    login levels from the vendor table.  Nothing of this goes to the model (placeholder platform, props not compiled)."""
     import scrapli.driver.core as core
     from harness import simdevice
 
     base = importlib.import_module("scrapli.driver.core.%s.base_driver" % plat)
     syncmod = importlib.import_module("scrapli.driver.core.%s.sync_driver" % plat)
+    sname, _aname, open_name = CLASSES[plat]
+    d = getattr(core, sname)(host="h", transport="telnet")
+    nbase = len(d.privilege_levels)
+    sessions = []
+    if hasattr(d, "register_configuration_session"):
+        for s in SESSION_FAMILY:
+            d._create_configuration_session(session_name=s)
+            sessions.append(s)
+    names = list(d.privilege_levels.keys())
+    lid = {n: i for i, n in enumerate(names)}
+    lines = {}
+
+    def line(x):
+        if isinstance(x, str) and x.strip() not in lines and len(lines) < USER_BASE - 1:
+            lines[x.strip()] = len(lines)
+
+    for l in d.privilege_levels.values():
+        line(l.escalate)
+        line(l.deescalate)
+    t = simdevice.PLATFORMS[plat]()
+    for table in t["trans"].values():
+        for ln in table:
+            line(ln)
+    for s in sessions:
+        line((t.get("session_cmd") or "configure session ") + s)
+    default = d.default_desired_privilege_level
+    problems = ["%s: platform not translated: %s" % (plat, err)]
+    rec = _record(getattr(syncmod, open_name), default)
+    crec = _record(getattr(syncmod, open_name.replace("_on_open", "_on_close")), default)
+    for r in (rec, crec):
+        for c in (r.calls if r is not None else []):
+            if c[0] in ("line", "write"):
+                line(c[1])
+    return {"platform": plat, "levels": [], "nbase": nbase, "default": lid.get(default, 0), "cfg": lid.get("configuration", 0),
+            "abort": "AbNone", "abort_shape": ["none"], "open": [], "dev": [],
+            "login": [lid[m] for m in t["login_modes"] if m in lid], "regs": [], "cands": [], "level_ids": lid,
+            "line_ids": dict(lines), "sessions": sessions, "failed_when_contains": list(base.FAILED_WHEN_CONTAINS),
+            "problems": problems, "reg_keeps": True, "reg_keeps_inspected": [], "fallback": True,
+            "open_cmds": list(rec.cmds) if rec is not None else [], "open_known": rec is not None,
+            "close_lines": [c[1] for c in crec.calls if c[0] in ("line", "write")] if crec is not None else [],
+            "close_known": crec is not None, "close_shape": None}
+
+
+def platform_facts(plat):
+    """fail-closed for the model (any GenError = broken tie), fail-soft for the search: a refused platform still yields the
+    names the oracle needs (fallback_facts), so that its histories are run on the real code and judged on the device's log"""
+    try:
+        return _platform_facts(plat)
+    except GenError as e:
+        return fallback_facts(plat, e)
+
+
+def _platform_facts(plat):
+    import scrapli.driver.core as core
+    from harness import simdevice
+
+    base = importlib.import_module("scrapli.driver.core.%s.base_driver" % plat)
+    syncmod = importlib.import_module("scrapli.driver.core.%s.sync_driver" % plat)
+    asyncmod = importlib.import_module("scrapli.driver.core.%s.async_driver" % plat)
     sname, aname, open_name = CLASSES[plat]
     scls, acls = getattr(core, sname), getattr(core, aname)
     d = scls(host="h", transport="telnet")
@@ -353,14 +459,25 @@ def platform_facts(plat):
         raise GenError("%s: default_desired_privilege_level %r is not a base level" % (plat, default))
     if "configuration" not in lid or lid["configuration"] >= nbase:
         raise GenError("%s: no level named 'configuration'" % plat)
-    # on_open
-    rec = _Rec(default)
-    getattr(syncmod, open_name)(rec)
-    if not rec.calls or rec.calls[0] != ("acquire", default) or any(c[0] != "line" for c in rec.calls[1:]):
-        raise GenError("%s: unexpected on_open call sequence %r" % (plat, rec.calls))
-    open_lines = [line(c[1]) for c in rec.calls[1:]]
-    # abort
+    # on_open (sync and async twin): acquire_priv(default) first, then lines.  Another shape is a broken tie (problem), not
+    # an abort: the table is kept so that the platform's histories are still run on the real drivers (oracle-only)
     problems = []
+    rec = _record(getattr(syncmod, open_name), default)
+    arec = _record_async(getattr(asyncmod, open_name), default)
+    if rec is None or arec is None or rec.calls != arec.calls:
+        problems.append("%s: on_open not translated: sync/async differ or unknown calls" % plat)
+    elif not rec.calls or rec.calls[0] != ("acquire", default) or any(c[0] != "line" for c in rec.calls[1:]):
+        problems.append("%s: on_open not translated: unexpected call sequence %r" % (plat, rec.calls))
+    open_lines = [line(c[1]) for c in (rec.calls if rec is not None else []) if c[0] == "line"]
+    # on_close: acquire_priv(default), then the line that ends the session is written (not in the model; the re-open
+    # histories compare the model's acquire_priv(default) with it when the shape is this one, else they are oracle-only)
+    crec = _record(getattr(syncmod, open_name.replace("_on_open", "_on_close")), default)
+    acrec = _record_async(getattr(asyncmod, open_name.replace("_on_open", "_on_close")), default)
+    close_shape = None
+    if crec is not None and acrec is not None and crec.calls == acrec.calls and len(crec.calls) == 3 \
+            and crec.calls[0] == ("acquire", default) and crec.calls[1][0] == "write" and crec.calls[2] == ("return", None):
+        close_shape = ["acquire-default", crec.calls[1][1]]
+    # abort
     try:
         sa, aa = abort_shape(scls), abort_shape(acls)
         if sa != aa:
@@ -423,10 +540,17 @@ def platform_facts(plat):
             "abort": abort, "abort_shape": list(sa), "open": open_lines, "dev": dev, "login": login, "regs": regs,
             "cands": cands, "level_ids": lid, "line_ids": dict(lines), "sessions": sessions,
             "failed_when_contains": list(base.FAILED_WHEN_CONTAINS), "problems": problems,
-            "reg_keeps": reg_keeps, "reg_keeps_inspected": rk_seen}
+            "reg_keeps": reg_keeps, "reg_keeps_inspected": rk_seen, "fallback": False,
+            "open_cmds": list(rec.cmds) if rec is not None else [], "open_known": rec is not None,
+            "close_lines": [c[1] for c in crec.calls if c[0] in ("line", "write")] if crec is not None else [],
+            "close_known": crec is not None, "close_shape": close_shape}
 
 
 def coq_platform(f, reset_first=True):
+    if f.get("fallback"):
+        # NOT TRANSLATED (tie reported broken): a placeholder that keeps the indices of gen_platforms; nothing is evaluated on it
+        return "mkPlatform [] 0 0 0 AbNone [] [] [] [] [] true true"
+
     def opt(x):
         return "None" if x is None else "(Some %d)" % x
 
@@ -445,7 +569,14 @@ def generate(outdir):
     if here not in sys.path:
         sys.path.insert(0, here)
     facts = [platform_facts(p) for p in PLATFORMS]
-    reset_first = reset_order_fact()
+    try:
+        reset_first = reset_order_fact()
+    except GenError as e:
+        # acquire_priv / _process_acquire_priv is shared by every platform: every tie is broken, every platform's histories
+        # are still run on the real code and judged by the device-log oracle
+        reset_first = True
+        for f in facts:
+            f["problems"].append("acquire_priv not translated: %s" % e)
     out = ["(* generated from the scrapli tree and harness/simdevice.py by gen/gen_netdriver.py — do not edit *)",
            "From Coq Require Import List Arith Bool.", "Import ListNotations.", "From Verif Require Import NetDriver.", ""]
     for f in facts:
@@ -462,17 +593,32 @@ def generate(outdir):
     path = os.path.join(outdir, "Gen_NetDriver.v")
     if not os.path.exists(path) or open(path).read() != text:
         open(path, "w").write(text)
+    info = _info_of(facts, reset_first)
+    with open(os.path.join(outdir, "netdriver_ids.json"), "w") as fh:
+        json.dump(info, fh, indent=1, sort_keys=True)
+    return path, info
+
+
+def fallback_info(err):
+    """generate() itself failed (an exception that is not a per-function refusal): the oracle's names for every platform,
+    so that the failing-input search can still run the histories on the real code"""
+    here = os.path.dirname(os.path.dirname(os.path.abspath(__file__)))
+    if here not in sys.path:
+        sys.path.insert(0, here)
+    return _info_of([fallback_facts(p, err) for p in PLATFORMS], True)
+
+
+def _info_of(facts, reset_first):
     info = {f["platform"]: {k: f[k] for k in ("level_ids", "line_ids", "nbase", "default", "cfg", "abort_shape", "open", "login",
                                               "sessions", "failed_when_contains", "cands", "problems", "reg_keeps",
-                                              "reg_keeps_inspected")}
+                                              "reg_keeps_inspected", "fallback", "open_cmds", "open_known", "close_lines",
+                                              "close_known", "close_shape")}
             for f in facts}
     for f in facts:
         info[f["platform"]]["levels"] = f["levels"]
         info[f["platform"]]["dev"] = f["dev"]
         info[f["platform"]]["reset_first"] = reset_first
-    with open(os.path.join(outdir, "netdriver_ids.json"), "w") as fh:
-        json.dump(info, fh, indent=1, sort_keys=True)
-    return path, info
+    return info
 
 
 if __name__ == "__main__":
